@@ -43,6 +43,9 @@ CHECKS = {
  "C13": ("runtime round-trip monitor over all generated models discovered by scanning the tree, unknown-element insertion at every boundary, byte comparison of regenerated code",
          "All generated models (79 today, rediscovered at check time from zz_generated.go + definition files) are exercised with type-directed values: announced length and wire plan vs bytes produced, strict TLV walk, Parse(Encode(v)) == v contiguous and segmented, unknown non-critical/critical element at every top-level boundary; and the generator is rebuilt from the tree and its output compared byte-for-byte with every checked-in zz_generated.go.",
          "Signature-valued fields are left empty here (covered by C03/C12); unexported marker fields are not compared; reflection reads the encoder's unexported length/wirePlan.", "5/C13"),
+ "C20": ("reference-model monitor on a real basic.Engine over a harness face and a harness-owned virtual clock; per-Interest callback log checked against a pending-Interest model at every event",
+         "Histories of EXPRESS/DATA/NACK/ADVANCE/ATTACH/DETACH/INCOMING/REPLY events (nested names with duplicates, CanBePrefix, implicit digests right and wrong, lifetimes 100 ms..4 s, clock advances across lifetime+margin boundaries): each callback at most once during and exactly once by the end, Data results only from satisfying Data, every unexpired pending Interest a Data satisfies resolved in that event, Nack only for exactly that name, timeouts never early and delivered by lifetime+margin, longest-prefix handler dispatch, Reply iff now <= deadline. ~2.4x10^4 (quick) / 6.4x10^5 (thorough) histories.",
+         "Virtual ndn.Timer and face are harness code (internal/simeng); callbacks only record.", "5/C20"),
  "C14": ("runtime law monitor over generated name pairs/triples + panic sanitizing of the URI parsers",
          "Every law of the statement (canonical total order, Equal<=>encoding equality<=>Compare==0, prefix relation, Equal=>Hash equal, PrefixHash[i]=Hash(name[:i]), URI round trip, parsers never panic) is evaluated by an oracle on >10^5 generated, adversarially close cases per run; a run reports the distinct relation/shape classes it actually observed.",
          "Trusted: the harness's own 20-line canonical order; hash collisions are not searched for.", "5/C14"),
